@@ -16,11 +16,8 @@ import (
 )
 
 func backgroundCompaction(db *DB) {
-	defer func() {
-		db.doneCompactionChannel <- true
-	}()
-
 	if !db.enableCompactions {
+		db.doneCompactionChannel <- true
 		return
 	}
 
@@ -50,8 +47,12 @@ func backgroundCompaction(db *DB) {
 	}(db)
 
 	if err != nil {
+		// this must not be deferred behind the done signal below: nobody receives it before Close, the panic would be
+		// parked until then and the database would silently run without compactions
 		log.Panicf("error while compacting, error was %v", err)
 	}
+
+	db.doneCompactionChannel <- true
 }
 
 func executeCompaction(db *DB) (compactionMetadata *proto.CompactionMetadata, err error) {
